@@ -45,9 +45,9 @@ CHECKS = {
          "grammar-bounded exhaustive enumeration of hostile inputs on both sides, executed in memory-capped single-threaded worker processes with hang watchdog; panic/progress/retained-heap oracles",
          "Every sequence of up to 2 (3) of 47 well-/ill-formed variants of the interpreted extensions in outer and sealed inner hellos, every length field set to {0,-1,+1,max} singly and pairwise, every message cut, every first-record type, and record/ServerHello/second-hello mutations in both directions after accepted and passed-through hellos are executed on the real Conn; no panic, no zero-progress return, bounded retained heap, no hang. The deadline clause (NewConn returns by its context deadline when the client stalls at any byte) is decided by the scheduler-based check registered with C10's engine.",
          "inputs are grammar-bounded, not arbitrary byte noise; memory measured as retained heap after the call with harness-held bytes subtracted", "§3 C08"),
- "C06": ("model_checking", "E4 hist",
-         "explicit-state model of the retry protocol; every history up to the depth bound over a 19-event alphabet replayed on fresh real Conns, model and implementation compared after every event",
-         "The model (accepted / pass-through flags / armed-by-HRR / retried / dead) is stepped alongside the real Conn for every history of length 4 (thorough 5) over 14 client and 5 backend whole-record events, from three initial situations; bytes delivered, error class, alert bytes and close are compared at every step; reachable model states and transitions are counted.",
+ "C06": ("model_checking", "E4 hist + E3 gosched",
+         "explicit-state model of the retry protocol; every history up to the depth bound over a 22-event alphabet replayed on fresh real Conns, model and implementation compared after every event; plus controlled-scheduler exploration of the same protocol with Read and Write running concurrently (sub-run on the instrumented sources)",
+         "The model (accepted / pass-through flags / armed-by-HRR / retried / dead) is stepped alongside the real Conn for every history of length 4 (thorough 5) over 17 client and 5 backend whole-record events, from three initial situations; bytes delivered, error class, alert bytes and close are compared at every step; reachable model states and transitions are counted. A second part pumps the real instrumented Conn from two threads plus a reacting client thread (56 scenarios) and explores all schedules with at most 3 (6) deviations: both byte streams, the error class and the alert must equal the sequential outcome.",
          "model written from the property statement; whole-record events (fragmentation is C07); reference sender validated against crypto/tls", "§3 C06"),
  "C01": ("exploration", "E1 enum",
          "exhaustive configuration grid through three real stacks (crypto/tls client, ech.Conn, crypto/tls backend) with a direct handshake of the same configuration as differential oracle",
@@ -71,7 +71,7 @@ CHECKS = {
          "parameter values without spaces; fake API follows Cloudflare v4 list semantics (count = items on the page)", "§3 C20"),
  "C18": ("model_checking", "E3 gosched",
          "stateless model checking of the real Dial under a controlled scheduler: sources rewritten at check time (goroutines, channels, select, WaitGroup, context, timers -> shims), all schedules up to a deviation bound in virtual time, monitors over the event log",
-         "For every scenario of the grid (1..3 (4) targets x 8 per-target plans x MaxConcurrency x delay/timeout x caller cancellation time) every schedule with at most 1 (2) deviations from the canonical one (2 in the quick tier for scenarios with at most 2 targets) is executed on the real code; monitors check start order, in-flight bound, staggering (delay or one reported failure per early start), per-attempt timeout, first success wins, every other established connection closed exactly once, joined errors, prompt return on cancellation, cancelled context for attempts after the decision, and termination of every goroutine.",
+         "For every scenario of the grid (1..3 (4) targets x 10 per-target plans (incl. an ECH rejection followed by a hanging retry) x MaxConcurrency x delay/timeout x caller cancellation time) every schedule with at most 1 (2) deviations from the canonical one (2 in the quick tier for scenarios with at most 2 targets) is executed on the real code; monitors check start order, in-flight bound, staggering (delay or one reported failure per early start), per-attempt timeout, first success wins, every other established connection closed exactly once, joined errors, prompt return on cancellation, cancelled context for attempts after the decision, and termination of every goroutine.",
          "computation takes zero virtual time; sequentially consistent memory at synchronisation granularity; IP-literal addresses; scripted DialFunc honouring its context; executions per scenario capped (cap reported when hit)", "§3 C18"),
  "C10": ("model_checking", "E3 gosched",
          "stateless model checking of the real NewConn under a controlled scheduler (sources rewritten at check time), all schedules up to a deviation bound in virtual time",
@@ -79,11 +79,11 @@ CHECKS = {
          "zero-time computation; sequentially consistent memory at synchronisation granularity; scheduler-aware fake transport honouring deadlines", "§3 C10"),
  "C17": ("fault_enumeration", "E1 enum + E2 envx",
          "exhaustive enumeration of resolution worlds and caller configurations; every tree of per-attempt outcomes (ok / error / ECH rejection with and without retry configs) explored by re-execution; oracle on the DialFunc argument log",
-         "8 resolution worlds (served by an in-memory DoH responder) x 5 caller configs x RequireECH x PublicName x 3 address forms; for each, every outcome vector of the connection attempts is executed on the real Dial; every DialFunc invocation is checked for RequireECH, caller-supplied list/ServerName preservation, per-record ECH list, host-derived server name, exactly one retry with exactly the server's retry configs, and the caller's tls.Config is compared before/after.",
-         "real goroutines (MaxConcurrency 1 makes the log sequential; failures re-run 5x); expected per-address lists derived through ResolveResult.Targets (decided by C15)", "§3 C17"),
+         "9 resolution worlds (served by an in-memory DoH responder) x 5 caller configs x RequireECH x PublicName x 3 address forms; for each, every outcome vector of the connection attempts is executed on the real Dial; every DialFunc invocation is checked for RequireECH, caller-supplied list/ServerName preservation, per-record ECH list, host-derived server name, exactly one retry with exactly the server's retry configs, and the caller's tls.Config is compared before/after.",
+         "real goroutines (MaxConcurrency 1 makes the log sequential; failures re-run 5x); expected per-address ECH lists and admissible dial addresses written by hand per world (independent of ResolveResult.Targets)", "§3 C17"),
  "C19": ("model_checking", "E1 enum + E4 hist",
          "exhaustive decision table for the HTTP/3 choice and record filtering against a reference function; every request history up to the depth bound through the real net/http stack over in-memory TLS servers against a reference",
-         "Every set of 1..3 service-mode records over 6 ALPN lists x no-default-alpn x HTTP/3 round-tripper present/absent is resolved through the in-memory DoH responder and dialed through the context-carried resolver; the protocol choice and the records reaching the dialer are compared with the model. Every request sequence of length <=3 (4) over 8 origins x 3 zones, with and without Host override, is executed with the real http.Client and Transport; plaintext refusal, upgrade, SNI/ServerName, Host header, dial address/port, resp.Request identity and per-connection origin isolation are checked.",
+         "Every set of 1..3 service-mode records over 6 ALPN lists x no-default-alpn x HTTP/3 round-tripper absent/failing/answering is resolved through the in-memory DoH responder and dialed through the context-carried resolver; the protocol choice and the records reaching the dialer are compared with the model. Every request sequence of length <=3 (4) over 8 origins x 3 zones, with and without Host override, is executed with the real http.Client and Transport; plaintext refusal, upgrade, SNI/ServerName, Host header, dial address/port, resp.Request identity and per-connection origin isolation are checked.",
          "net/http and crypto/tls goroutines run outside any scheduler (failures re-run 5x); HTTP/3 represented by a fake round-tripper that dials through the context-carried resolver; record sets with equal priorities excluded", "§3 C19"),
 }
 
